@@ -797,6 +797,14 @@ class Tahoe2ServerSelector(log.PrefixingLogMixin):
             if tracker_id == None:
                 continue
             if tracker.get_serverid() == tracker_id:
+                if any(shnum in other.buckets
+                       for other in self.use_trackers if other is not tracker):
+                    # An earlier iteration already allocated a bucket for
+                    # this share on another server. Each share is written
+                    # to one server only, so do not allocate a second
+                    # bucket (CHKUploader.set_shareholders refuses the pair
+                    # and the upload would die with an AssertionError).
+                    continue
                 shares_to_ask.add(shnum)
                 if shnum in self.homeless_shares:
                     self.homeless_shares.remove(shnum)
